@@ -5,7 +5,8 @@
     fixes/C07-*.diff applied); every [= Ok ...] below says: no read outside the message mapping, no
     store outside a staging buffer (no [Crash]) and termination (no [OutOfFuel]). *)
 From Qv Require Import Common.Bytes Gen.GenQrdata Model.Mime Model.QrData Spec.SmtpDataSpec
-  Proofs.QrNeedRecodeProofs Proofs.QrPlainSpecProofs Proofs.QrQpDecodeProofs Proofs.QrQpLegalProofs Proofs.QrQpTopProofs Proofs.QrWrapLineProofs Proofs.QrPartDecisionProofs.
+  Proofs.QrNeedRecodeProofs Proofs.QrPlainSpecProofs Proofs.QrQpDecodeProofs Proofs.QrQpLegalProofs Proofs.QrQpTopProofs Proofs.QrWrapLineProofs Proofs.QrPartDecisionProofs
+  Proofs.MimeTotalProofs Proofs.QrHeaderTotalProofs Proofs.QrSendQpTotalProofs.
 
 (** need_recode() decides exactly what the property needs: the message goes the recoding way iff it has
     an octet that is NUL or above 127 while 8BITMIME was not announced, or a line of more than 998 octets
@@ -16,6 +17,29 @@ Theorem C06_recode_decision : forall (m : bytes) (ext8 : bool),
     takes_qp ext8 fl = must_recode ext8 m.
 Proof. exact need_recode_decides. Qed.
 Print Assumptions C06_recode_decision.
+
+(** "Qremote always finishes and never reads outside the message": for EVERY message (any octets, any
+    line ends, any header, multipart of any shape and nesting), every HELO name and either 8BITMIME
+    setting, send_data returns on whichever path it takes — plain, or the recoding path through
+    qp_header (header scan, Content-Transfer-Encoding replacement), wrap_header / wrap_line, the multipart
+    walk of send_qp with its recursion into the parts, and the mime.c functions (is_multipart,
+    skipwhitespace, mime_token, mime_param, getfieldlen, find_boundary).  [Ok] means: no [Crash] — no read
+    outside the mapping of the message, no store outside sendbuf[1205/1048/1280], none of the situations
+    the C code excludes by assert() — and no [OutOfFuel] with the fuel of the model, which is linear in
+    the message length (length + 1 for the recursion over parts and for each loop over a window of
+    that length, 2 x length + 2 / 6 x length + 6 for the flattened nested loops).  The outcome is the
+    completed transfer or a failure reported through net_conn_shutdown() ([Die]). *)
+Theorem C06_total : forall (m helo : bytes) (ext8 : bool),
+  exists fl q r, send_data m helo ext8 = Ok (fl, q, r).
+Proof. exact send_data_total. Qed.
+Print Assumptions C06_total.
+
+(** the same for the recoder alone, on any window of the message (any MIME part) and with any fuel above
+    the window length *)
+Theorem C06_send_qp_total : forall (m helo : bytes) (ext8 : bool) (fuel b len : nat) (st : St),
+  b + len <= length m -> len < fuel -> exists r, send_qp fuel m helo ext8 b len st = Ok r.
+Proof. exact send_qp_total. Qed.
+Print Assumptions C06_send_qp_total.
 
 (** send_qp() decides for every MIME part with `nr & nr_match` whether the part goes through the recoder
     (folding of over-long header lines, quoted-printable) or is sent as it is.  With the masks of the C
